@@ -106,7 +106,8 @@ def check(pid, tier, seed):
     verdict = core.Verdict(pid)
     rnd = random.Random(seed)
     names = "{3, 6}" if tier == "quick" else "{3, 4, 6}"
-    cfg = "SPECIFICATION Spec\nCHECK_DEADLOCK FALSE\nINVARIANT ShowAgrees\nINVARIANT SyntaxIffError\nCONSTRAINT ExportCase\nCONSTANTS\n NLay = 2\n NameSet = %s\n Shapes = {\"bb\", \"ns\", \"sn\", \"nn\", \"ss\"}\n Export = TRUE\n" % names
+    cfg = "SPECIFICATION Spec\nCHECK_DEADLOCK FALSE\nINVARIANT ShowAgrees\nINVARIANT SyntaxIffError\nCONSTRAINT ExportCase\nCONSTANTS\n NLay = 2\n NameSet = %s\n Shapes = %s\n Export = TRUE\n" % (
+        names, '{"bb", "ns", "sn", "nn", "ss", "bc", "hs"}' if tier == "quick" else '{"bb", "ns", "sn", "nn", "ss", "bc", "hs", "hc", "bh", "sc"}')
     r = core.tlc_ok("MC_Tool", write_cfg(cfg), timeout=1200)
     if r.violated:
         verdict.violation("C19:model", {"tlc": r.out[-3000:]}, "TLC: Tool model invariant violated\n" + r.out[-1500:])
@@ -211,7 +212,7 @@ def check(pid, tier, seed):
     rc = verdict.finish()
     cov = {"states": r.distinct, "transitions": r.generated, "traces_validated_against_impl": ok,
            "evaluations": len(recs) * 3, "distinct_nontrivial": nn,
-           "rule": "MC_Tool exports every two-layer tree (main x4 per layer x subsets of %s drop-in names per layer) x content shapes {both, group-less only, sections only} x {no malformed file, each consulted regular file malformed}; %d trees materialised under $ECONFTOOL_ROOT (/usr/etc, /etc) with delimiter '=', ':' (--delimiters) and blanks (--delimiters=spaces); the built econftool runs show, syntax, cat (stdbuf keeps stdout/stderr order); stdout parsed into (section, key, value lines) triples and compared as sets with Tool!ShowCmd / CatCmd, exit status with SyntaxCmd, error location = malformed file + line; plus single absolute files; the ASan/UBSan build of the tool runs show on every tree. non-trivial = result with group-less keys or >= 2 sections or a malformed file." % (names, len(recs)),
+           "rule": "MC_Tool exports every two-layer tree (main x4 per layer x subsets of %s drop-in names per layer) x content shapes {both, group-less only, sections only, header-only section in the main file, drop-ins holding only comments} x {no malformed file, each consulted regular file malformed}; %d trees materialised under $ECONFTOOL_ROOT (/usr/etc, /etc) with delimiter '=', ':' (--delimiters) and blanks (--delimiters=spaces); the built econftool runs show, syntax, cat (stdbuf keeps stdout/stderr order); stdout parsed into (section, key, value lines) triples and compared as sets with Tool!ShowCmd / CatCmd, exit status with SyntaxCmd, error location = malformed file + line; plus single absolute files; the ASan/UBSan build of the tool runs show on every tree. non-trivial = result with group-less keys or >= 2 sections or a malformed file." % (names, len(recs)),
            "samples": [{"tree": p_layers.tree_text({"main": recs[5]["main"], "drop": recs[5]["drop"], "shp": recs[5]["shp"]}), "show": recs[5]["show"]}],
            "exhaustive": False, "trusted_base": ["TLC 1.8.0", "gcc (plain and ASan/UBSan builds of util/econftool.c + lib)", "coreutils stdbuf"]}
     core.write_evidence(pid, tier, seed, "model_checking", cov, ["the printed layout is not compared, only the parsed triples", "edit/revert are not part of the property"], time.time() - t0, len(verdict.violations))
